@@ -1,14 +1,17 @@
 #!/usr/bin/env python3
 """Runs checks against a seeded change: applies /verif/seeded/<id>/patch.diff to /repo under the
 exclusive repo lock, runs ./check for the given properties, restores the touched files, and records
-the outcome in /verif/seeded/<id>/detection.json.   usage: seed_run.py <id> Cxx [Cyy ...] [--tier T]"""
+the outcome in /verif/seeded/<id>/detection.json.   usage: seed_run.py <id> Cxx [Cyy ...] [--tier T] [--root DIR]"""
 import fcntl, json, os, re, subprocess, sys, time
 args = sys.argv[1:]
 tier = "quick"
 if "--tier" in args:
     i = args.index("--tier"); tier = args[i + 1]; del args[i:i + 2]
+root = "/verif/seeded"
+if "--root" in args:   # e.g. /verif/harmless: behaviour-preserving rewrites (no check should alarm)
+    i = args.index("--root"); root = args[i + 1]; del args[i:i + 2]
 sid, props = args[0], args[1:]
-d = os.path.join("/verif/seeded", sid)
+d = os.path.join(root, sid)
 patch = os.path.join(d, "patch.diff")
 files = re.findall(r"^\+\+\+ b/(\S+)", open(patch).read(), re.M)
 os.makedirs("/verif/.work", exist_ok=True)
